@@ -150,10 +150,28 @@ def pluck_stream(ck, srcs, targets=("sql.sqlite", "sql.generic", "sql.mssql")):
                         ("takes", any(t["kind"] == "Take" for t in pl))):
             if on:
                 ck.stat("pluck", "has:" + fld)
-        (co, sup, one, sba), (co_raw, co_split) = co
+        co, sup, one, sba, (co_raw, co_split) = co
         # the hypotheses of c01_pluck_sound_resorted on this very pipeline
         ck.stat("pluck", "theorem-applies" if (co and sup and one and sba) else
                 "outside:" + ",".join(n for n, ok in (("clause-order", co), ("supported", sup), ("one-aggregate", one), ("sorts-behind-aggregate", sba)) if not ok))
+        if sup and not (co and one and sba):
+            # a real atomic pipeline of the Theta-2 fragment that does not meet the hypotheses under which its SELECT is proved to
+            # mean what it means: a defect, unless it is one of the known shapes
+            ks = [t["kind"] for t in pl]
+            tk = [i for i, k in enumerate(ks) if k == "Take"]
+            fid = None
+            if len(tk) >= 2 and any(ks[i] == "Sort" and json.dumps(pl[i]["keys"]) != json.dumps(next((pl[j]["keys"] for j in range(tk[0] - 1, -1, -1) if ks[j] == "Sort"), None))
+                                    for i in range(tk[0] + 1, tk[-1])):
+                fid = "F37-takes-merged-across-sort-before-group"
+            elif tk and "Distinct" in ks and tk[0] < ks.index("Distinct"):
+                fid = "F19-take-then-distinct"
+            ck.disagreement("an atomic pipeline handed to translate_select_pipeline is outside the hypotheses of c01_pluck_sound_resorted (%s): %s [%s]" % (
+                ",".join(n for n, ok in (("clause-order", co), ("one-aggregate", one), ("sorts-behind-aggregate", sba)) if not ok),
+                rq["src"].replace("\n", " | ")[:200], rq["target"]), {"src": rq["src"], "target": rq["target"], "kinds": ks}, lambda _c, f=fid: f)
+        if not (co and sup and one and sba):
+            ck.coverage.setdefault("pluck_outside_theorem", [])
+            if len(ck.coverage["pluck_outside_theorem"]) < 12:
+                ck.coverage["pluck_outside_theorem"].append({"src": rq["src"].replace("\n", " | ")[:160], "kinds": [t["kind"] for t in pl]})
         ck.stat("pluck", "clause-ordered-as-logged" if co_raw else "clause-ordered-only-without-re-emitted-sorts" if co else "not-clause-ordered")
         if problems:
             ck.disagreement("clause assembly of translate_select_pipeline differs from Model/SelectPluck.v (%s) on %s [%s]" % (
